@@ -1247,11 +1247,9 @@ caption_command(vbi_decoder *vbi, struct caption *cc,
 
 		switch (c2) {
 		case 0x21 ... 0x23:	/* Misc Control Codes, Tabs	001 c111  010 00xx */
-// not verified
-			col = ch->col;
-
-			for (i = c2 & 3; i > 0 && col < COLUMNS - 2; i--)
-				ch->line[col++] = cc->transp_space[chan >> 2];
+			/* 47 CFR 15.119 (e)(1)(ii): The character cells
+			   skipped over will be unaffected. */
+			col = MIN(ch->col + (c2 & 3), COLUMNS - 2);
 
 			if (col > ch->col)
 				ch->col = ch->col1 = col;
